@@ -96,6 +96,10 @@ func (t *template) RenderReader(ctx context.Context, w io.Writer, r io.Reader) e
 		return fmt.Errorf("error parsing template: %w", err)
 	}
 
+	// The v-once elements of an inline template get ids of their own: the context below
+	// carries the name of a loaded file, and that file may be included by this template.
+	assignOnceIDs("\x00inline", dom)
+
 	// Create VueContext with filename from loaded template
 	vueCtx := NewVueContext(t.filename, &VueContextOptions{
 		Stack:      t.stack.Copy(),
